@@ -3,20 +3,28 @@ import json
 from vlib import core, terms
 
 META = {
-    "level": "other",
-    "text": ("The iterator protocol of Machine::run_query is specified in Coq (stream = solutions in order, then one exception or the end with the false marker; "
-             "iterator_yields_solutions_in_order, exception_once_then_end, end_marker_rule, history_independence, partial_consumption_is_prefix are proved about that specification). "
-             "The implementation (lib_machine, ~600 lines around the WAM) is NOT mirrored: it is tied to the specification by correspondence only -- histories of queries with "
-             "partially consumed iterators on one Machine are compared with the same query on a fresh Machine and with the solutions found inside Prolog by findall/3, and the "
-             "stream shapes are checked in Coq. That is why the level is 'other', not 'proof'."),
-    "note": ("Trusted: Coq kernel + vm_compute; harness vrun (steps with \"take\": k pull k answers and drop the iterator); the answer channel Term::from_heapcell is part of what is checked. "
+    "level": "proof",
+    "text": ("Coq theorems over an impl-mirror of the iterator of Machine::run_query (coq/C28/Iter.v: run_query with allocate_stub_choice_point and ball.reset(), QueryState::next "
+             "with its `called && b <= stub_b` test, the ball test after dispatch_loop, the LIB_QUERY_SUCCESS / BREAK_FROM_DISPATCH_LOOP_LOC cases and backtrack(), Drop with the "
+             "discard of frames above the stub and trust_me), over the registers it reads and writes (or-stack depth b, the ball, called). iterator_refines_stream: for EVERY machine "
+             "state left by earlier queries (any or-stack depth, any stale ball), every query and every number of answers pulled, the iterator yields exactly the first answers of the "
+             "specification's stream (solutions in order, then one exception, or the end with the false marker); mirror_history_is_spec_history: every history of queries with any "
+             "prefix consumed observes, query by query, what a fresh machine gives; or_stack_restored: the or-stack is as before the history; plus the specification theorems "
+             "(iterator_yields_solutions_in_order, exception_once_then_end, end_marker_rule, history_independence, partial_consumption_is_prefix) and two Examples showing that the two "
+             "repairs made in /repo (ball.reset(), discard above the stub) are necessary in the mirror. The WAM below the iterator is an oracle: the script of what successive "
+             "dispatch_loop runs do (wfb: solutions leaving choice points, then a last solution / failure / exception). Tie: histories on one Machine with partially consumed "
+             "iterators are compared in Coq with the mirror run on the stream found on a fresh Machine and by findall/3 inside Prolog, and the real registers b, stack top and tr "
+             "after every step (footprint hook) must be what or_stack_restored says."),
+    "note": ("Trusted: Coq kernel + vm_compute; harness vrun (steps with \"take\": k pull k answers and drop the iterator; footprint after each step through the verif_hooks feature); "
+             "the oracle assumption wfb about dispatch_loop (b > stub_b after a solution iff alternatives remain; failure and exceptions end at the stub) is NOT proved -- it is what the "
+             "differential part exercises; Term::from_heapcell (answer rendering) and the parser are outside the mirror and are covered by the differential comparison only. "
              "Queries that fail to parse make run_query panic by design (expect) and are not generated."),
-    "technique": "Coq-proved specification of the answer stream + differential histories (same machine vs fresh machine vs findall/3)",
+    "technique": "Coq refinement proof (impl-mirror of the run_query iterator state machine = answer-stream specification, for every history) + differential histories (same machine vs fresh machine vs findall/3) + register footprints through a hook",
     "coq_targets": ["C28/Props.vo"], "coq_dirs": ["C28"], "props": "C28/Props.v",
-    "trusted_base": ["Coq 8.16.1 kernel, vm_compute", "harness vrun + tools/vlib"],
-    "assumptions": ["a fresh Machine is the reference for what a query returns"],
+    "trusted_base": ["Coq 8.16.1 kernel, vm_compute", "harness vrun + tools/vlib", "src/machine/lib_machine/verif_footprint.rs (hook)"],
+    "assumptions": ["a fresh Machine is the reference for what a query returns", "dispatch_loop behaves as a well-formed script (wfb) for every query"],
 }
-IMPORTS = "From V Require Import C28.Model."
+IMPORTS = "From V Require Import C28.Model C28.Iter."
 
 PROG = ":- use_module(library(lists)).\n:- use_module(library(between)).\n:- dynamic(cnt/1).\nnd(1). nd(2). nd(3).\ndet(7).\np(a,1). p(b,2). p(c,3).\n"
 # (query, variables to collect inside findall or None when the query throws / has side effects)
@@ -130,7 +138,11 @@ def run(ctx):
                 if take < len(full[i]): partial = True; dist["partial_drops"] += 1
                 if ids is None:
                     failures.append({"key": "embed:history-panic", "what": "unreadable answer", "input": "%s step %d" % (jid, k), "impl": json.dumps(ans)[:200], "spec": "", "property_fails": True}); break
-                bools.append("check_prefix [%s] %d%%nat [%s]" % ("; ".join(full[i]), take, "; ".join(ids))); bmeta.append(("hist", jid, k, POOL[i][0], take, [s["q"] for s in jobs[int(jid[1:])]["steps"][1:k + 2]]))
+                fsols = [x.split()[1] for x in full[i] if x.startswith("LSol")]
+                fexc = [x.split()[1] for x in full[i] if x.startswith("LExc")]
+                lc = "true" if (full[i] and full[i][-1] == "LFalse" and fsols) else "false"
+                bools.append("check_prefix [%s] %d%%nat [%s] && check_iter [%s] %s %s %d%%nat [%s]" % (
+                    "; ".join(full[i]), take, "; ".join(ids), "; ".join(fsols), ("(Some %s)" % fexc[0]) if fexc else "None", lc, take, "; ".join(ids))); bmeta.append(("hist", jid, k, POOL[i][0], take, [s["q"] for s in jobs[int(jid[1:])]["steps"][1:k + 2]]))
             elif st[0] == "db":
                 got = None
                 if ans and isinstance(ans[0], dict) and "b" in ans[0]:
@@ -140,6 +152,16 @@ def run(ctx):
                                      "input": "%s step %d" % (jid, k), "impl": json.dumps(ans)[:200], "spec": str(st[1]), "property_fails": True})
         if partial: nontriv += 1
         fps = rec.get("footprints") or []
+        # the registers the mirror's or_stack_restored speaks about: after every step they are what they were after the consult
+        if fps and fps[0]:
+            dist["register_footprints_compared"] = dist.get("register_footprints_compared", 0) + len(fps) - 1
+            for k in range(1, len(fps)):
+                diff = {r: (fps[0].get(r), fps[k].get(r)) for r in ("b", "stack_top", "tr") if fps[k] and fps[k].get(r) != fps[0].get(r)}
+                if diff:
+                    tie_breaks.append({"kind": "correspondence", "key": "embed:registers-not-restored",
+                                       "what": "after a query (consumed fully or partially) the or-stack / trail registers are not what the mirror's or_stack_restored says (as before the query)",
+                                       "detail": {"input": "%s step %d: %r" % (jid, k, jobs[int(jid[1:])]["steps"][k]), "impl": diff, "theorem": "or_stack_restored (coq/C28/Props.v)"}})
+                    break
         if fps and fps[-1]:
             b = min(fps[-1].get("stack_top", 0) // 1000, 10)
             dist["stack_top_after_history"][b] = dist["stack_top_after_history"].get(b, 0) + 1
